@@ -251,7 +251,9 @@ impl Check for C16 {
 fn strategy(tier: Tier) -> BoxedStrategy<Case> {
     let maxops = tier.pick(120usize, 400usize);
     let val = prop_oneof![(0i32..8).prop_map(|i| i as f64), -1e3f64..1e3, Just(1e11), Just(-3e11), Just(0.1), 1e-3f64..1e12];
-    let w = prop_oneof![1 => Just(1.0f64), 2 => 1e-6f64..1e6, 1 => Just(1e-6), 1 => Just(1e6), 1 => (1u32..9).prop_map(|i| i as f64)];
+    let w = prop_oneof![10 => Just(1.0f64), 20 => 1e-6f64..1e6, 10 => Just(1e-6), 10 => Just(1e6), 10 => (1u32..9).prop_map(|i| i as f64),
+        // weight ratios beyond the 53-bit mantissa within one history
+        1 => prop_oneof![Just(1152921504606846976.0f64), Just(1e18), Just(1e25), Just(8.673617379884035e-19)]];
     let op = prop_oneof![
         8 => val.clone().prop_map(Op::Insert),
         4 => (val.clone(), w).prop_map(|(x, w)| Op::InsertW(x, w)),
@@ -291,7 +293,7 @@ pub fn checks() -> Vec<Box<dyn DynCheck>> {
 }
 
 pub fn run(ctx: &Ctx) {
-    ctx.set_rule("generated: scale K0..K3, delta 1.01..1000, backlog 0..1000 (rarely 2^62, usize::MAX - 1, usize::MAX: nothing merges before a read), histories of insert / insert_weighted (weights 1e-6..1e6, in 40 % of the histories all multiplied by 10^e with e in -30..=30; in 6 % of the histories all weights, also the unit ones, are multiplied by 1e-310 and thus lie around the subnormal border, where only count/min/max/is_empty and the twin comparison are checked) / seeded blocks of unit inserts / zero-weight inserts / reads (quantile, cdf, aggregates: they force merges) / clear. Oracle: count() == sum of weights (exact for unit weights, rel 1e-9 otherwise), sum()/mean() within 1e-9 of the accumulated |x*w|, min()/max() exactly the extremes, every read bit-identical to a twin digest fed the same history without the zero-weight inserts, is_empty() iff no positive weight since creation/clear (checked after every op without forcing a merge). Non-trivial: >= 2 reads (merges) and fusion happened (n_centroids < inserts). Distinct = hash of the case.");
+    ctx.set_rule("generated: scale K0..K3, delta 1.01..1000, backlog 0..1000 (rarely 2^62, usize::MAX - 1, usize::MAX: nothing merges before a read), histories of insert / insert_weighted (weights 1e-6..1e6, rarely 2^60, 1e18, 1e25, 2^-60 next to ordinary ones; in 40 % of the histories all multiplied by 10^e with e in -30..=30; in 6 % of the histories all weights, also the unit ones, are multiplied by 1e-310 and thus lie around the subnormal border, where only count/min/max/is_empty and the twin comparison are checked) / seeded blocks of unit inserts / zero-weight inserts / reads (quantile, cdf, aggregates: they force merges) / clear. Oracle: count() == sum of weights (exact for unit weights, rel 1e-9 otherwise), sum()/mean() within 1e-9 of the accumulated |x*w|, min()/max() exactly the extremes, every read bit-identical to a twin digest fed the same history without the zero-weight inserts, is_empty() iff no positive weight since creation/clear (checked after every op without forcing a merge). Non-trivial: >= 2 reads (merges) and fusion happened (n_centroids < inserts). Distinct = hash of the case.");
     ctx.run_regressions(&[&C16]);
     let t = ctx.tier;
     ctx.run_random(&C16, t.pick(60_000, 1_000_000), move || strategy(t));
